@@ -238,8 +238,19 @@ func cmdCheck(args []string) int {
 	if err != nil {
 		return undecided(err.Error())
 	}
+	// obligations recorded as known findings are expected to fail: no long retry for them
+	isFinding := func(name string) bool {
+		for _, f := range findings {
+			if !f.Fixed && f.Obligation == name {
+				return true
+			}
+		}
+		return false
+	}
 	if !*updateLock {
-		cfg.Expect = func(name string) bool { return lock[prop][name] }
+		cfg.Expect = func(name string) bool { return lock[prop][name] && !isFinding(name) }
+	} else {
+		cfg.Expect = func(name string) bool { return !isFinding(name) }
 	}
 	results, missing, err := runProperty(g, prop, cfg, findings)
 	if err != nil {
